@@ -26,6 +26,7 @@ static struct {
 	int expect_ctx2, susp_open, wait_for_others, arm_rel, arm_code, no_cancel;
 	sim_event suspended_by_1, susp_item_done[MAXC]; int susp_item_sent[MAXC];
 	sim_event go, handler_seen;
+	int set_width, q_conc;   // scenario 0: one client changes the width of the (concurrent) queue while others suspend and resume it
 	int client_keys; char ck[MAXC]; int ckd[MAXC]; uint64_t ckd_stamp[MAXC];   // scenario 0: every client sets its own key first thing (a race on the first set_specific)
 } L;
 
@@ -98,6 +99,7 @@ static void *queue_client(void *arg) {
 		L.items_submitted++;
 		if ((c + i) & 1) dispatch_async_f(L.q, (void *)fl, item); else dispatch_barrier_async_f(L.q, (void *)fl, item);
 		sim_point();
+		if (L.set_width && c == L.nclients - 1) { dispatch_queue_set_width(L.q, 2 + i); sim_point(); }   // takes a suspension and two references of its own for the duration
 	}
 	if (L.susp && c == 1) {
 		// another holder resumes: suspended by this client, which then drops its own reference; client 0 resumes
@@ -127,7 +129,8 @@ static void scen_queue(void) {
 	L.root = dispatch_queue_create("c17-root", L.tq_kind ? DISPATCH_QUEUE_CONCURRENT : NULL);
 	dispatch_queue_set_specific(L.root, &L.mark, &L.mark, NULL);
 	dispatch_set_context(L.root, &L.mark); dispatch_set_finalizer_f(L.root, finalizer_root);
-	L.q = dispatch_queue_create_with_target("c17-q", g_chance(1, 2) ? DISPATCH_QUEUE_CONCURRENT : NULL, L.root);
+	L.q_conc = g_chance(1, 2); L.set_width = L.q_conc && g_chance(1, 2);
+	L.q = dispatch_queue_create_with_target("c17-q", L.q_conc ? DISPATCH_QUEUE_CONCURRENT : NULL, L.root);
 	L.obj = L.q;
 	dispatch_set_context(L.q, &L.ctx1); dispatch_set_finalizer_f(L.q, finalizer_obj);
 	L.client_keys = g_chance(1, 3);
